@@ -238,6 +238,8 @@ theorem level_arith (O : FloatOps F C) (op : AOp) (a b : NNum F C) :
     (arith O op a b).level = max a.level b.level := by
   cases a <;> cases b <;> simp [arith, exact, toF, ofExact, level]
 
+/-! ## 4. the operators as registered (`/`, the zero-divisor guards, `^`): Impl = Spec -/
+
 theorem toRational_eq_exact (a : NNum F C) : toRational a = exact a := by cases a <;> rfl
 
 theorem isNonzero_eq (O : FloatOps F C) (b : NNum F C) : isNonzero O b = !isZero O b := by
